@@ -107,6 +107,96 @@ def chunk_work(item):
     return {"item": (n, with_outl, mode, len(combos)), **res}
 
 
+def e2e_alphabet():
+    fs = frozenset
+
+    def st(pairs, outl=()):
+        return (fs((fs(b), fs(p) if p is not None else None) for b, p in pairs), fs(outl))
+
+    return [st([((0,), None), ((1,), (0,)), ((2,), (1,))]), st([((0,), None), ((1,), (0,)), ((2,), (0,))]),
+            st([((0,), None), ((1,), None), ((2,), None)]), st([((2,), None), ((1,), (2,)), ((0,), (1,))]),
+            st([((0, 1), None)], outl=(2,))]
+
+
+def e2e_chunk(item):
+    """End to end: synthetic trace -> real writer -> write_consensus_results -> decode table + Newick."""
+    import os
+    import shutil
+    from mc import traces
+    from phyclone.process_trace import write_consensus_results
+
+    seqs, n_trees = item
+    data = traces.named_data(3, grid=3, outlier_prob=0.2)
+    alpha = e2e_alphabet()[:n_trees]
+    trees = [oracle.build(s, data) for s in alpha]
+    alt = [oracle.build(s, data, reverse_siblings=True) for s in alpha]
+    for t in trees + alt:
+        t.relabel_nodes()
+    scores = (-1.0, -2.0, -4.0)
+    name_to_idx = {str(x.name): x.idx for x in data}
+    res = {"n": 0, "skipped": 0, "problems": []}
+    d = traces.scratch("c16_")
+    try:
+        for seq, split in seqs:
+            ents = [(k // 3, scores[k % 3]) for k in seq]
+            chains = {0: [((trees if j % 2 == 0 else alt)[t], sc) for j, (t, sc) in enumerate(ents[:split])]}
+            if split < len(ents):
+                chains[1] = [(trees[t], sc) for (t, sc) in ents[split:]]
+            path = traces.write_trace(d, traces.make_results(data, ["S"], chains))
+            cnt = {}
+            best = {}
+            for t, sc in ents:
+                cnt[t] = cnt.get(t, 0) + 1
+                best[t] = max(best.get(t, -1e300), sc)
+            for mode in ("counts", "joint-likelihood"):
+                if mode == "counts":
+                    w = {t: c / len(ents) for t, c in cnt.items()}
+                else:
+                    raw = {t: cnt[t] * math.exp(best[t]) for t in cnt}
+                    z = sum(raw.values())
+                    w = {t: v / z for t, v in raw.items()}
+                sup = {}
+                for t, wt in w.items():
+                    for c in oracle.clades_of(alpha[t]):
+                        sup[c] = sup.get(c, 0.0) + wt
+                for th in (0.5, 0.6, 0.75):
+                    if any(abs(v - th) <= 1e-9 for v in sup.values()):
+                        res["skipped"] += 1
+                        continue
+                    want = {c for c, v in sup.items() if v > th}
+                    tb, tr = os.path.join(d, "c.tsv"), os.path.join(d, "c.nwk")
+                    res["n"] += 1
+                    ctx = {"entries": [[["chain", "fork", "separate", "reverse-chain", "pair+outlier"][t], sc] for t, sc in ents], "split": split, "mode": mode, "threshold": th}
+                    try:
+                        traces.quiet(write_consensus_results, path, tb, tr, consensus_threshold=th, weight_type=mode)
+                        dec, dp = traces.decode(traces.read_table(tb), open(tr).read().strip(), name_to_idx)
+                    except Exception as e:
+                        res["problems"].append({"what": "consensus command raised %s: %s" % (type(e).__name__, str(e)[:100]), "trace": ctx})
+                        continue
+                    got = traces.decoded_clades(dec)
+                    covered = set().union(*want) if want else set()
+                    if dp or got != want or set(dec["outliers"]) != set(range(3)) - covered:
+                        res["problems"].append({"what": "written consensus has clades %r outliers %r; majority clades %r" % (sorted(map(sorted, got)), sorted(dec["outliers"]), sorted(map(sorted, want))), "trace": ctx})
+            if len(res["problems"]) > 4:
+                break
+    finally:
+        shutil.rmtree(d, ignore_errors=True)
+    return res
+
+
+def e2e_items(tier):
+    n_trees, L = (5, 3) if tier == "quick" else (5, 4)
+    syms = n_trees * 3
+    seqs = []
+    for l in range(1, L + 1):
+        for seq in itertools.product(range(syms), repeat=l):
+            if l == 4 and (seq[0] + seq[1] * 2 + seq[2] * 3 + seq[3]) % 4:
+                continue
+            for split in ((l,) if l == 1 else (l, 1)):
+                seqs.append((seq, split))
+    return [(seqs[i:i + 60], n_trees) for i in range(0, len(seqs), 60)]
+
+
 def orbit_representatives(n, states, size):
     """One multiset per orbit under relabelling of the data points."""
     perms = list(itertools.permutations(range(n)))
@@ -186,6 +276,17 @@ def main(tier, seed):
             empties = pr["what"].startswith("clades")
             chk.violation({"sub": "consensus", "n": r["item"][0], "mode": r["item"][2], "n_trees": len(pr["combo"]), "what": pr["what"].split(":")[0][:30] if not empties else "clade set differs"},
                           pr, {"n": r["item"][0], "outliers": r["item"][1], "combo": pr["combo"], "weights": pr["weights"], "threshold": pr["threshold"]})
+    # end to end through the trace file and the consensus command (topology dictionary, weights, table writer)
+    e2e = 0
+    for r in pool_imap(e2e_chunk, e2e_items(tier), chunksize=1):
+        chk.transitions += r["n"]
+        chk.traces_validated += r["n"]
+        chk.n_nontrivial_extra += r["n"]
+        e2e += r["n"]
+        chk.bump("skipped_at_threshold", r["skipped"])
+        for pr in r["problems"][:2]:
+            chk.violation({"sub": "consensus-command", "mode": pr["trace"]["mode"], "what": pr["what"].split(":")[0][:30]}, pr, {"e2e": pr["trace"]})
+    chk.note("end_to_end_consensus_commands", e2e)
     data, states, trees, clades = universe(4, False)
     chk.sample({"trees": [oracle.fmt_state(states[i]) for i in (118, 124, 213)], "threshold": 0.5, "mode": "counts"})
     return chk.finish()
@@ -194,6 +295,13 @@ def main(tier, seed):
 def replay(path):
     body = json.load(open(path))
     rp = body["replay"]
+    if "e2e" in rp:
+        t = rp["e2e"]
+        names = ["chain", "fork", "separate", "reverse-chain", "pair+outlier"]
+        seq = tuple(names.index(nm) * 3 + (-1.0, -2.0, -4.0).index(sc) for nm, sc in t["entries"])
+        r = e2e_chunk(([(seq, t["split"])], 5))
+        print(r["problems"])
+        return 1 if r["problems"] else 0
     data, states, trees, clades = universe(rp["n"], rp["outliers"])
     r = judge(data, trees, clades, tuple(rp["combo"]), rp["weights"], rp["threshold"], rp["n"])
     print("trees:", [oracle.fmt_state(states[i]) for i in rp["combo"]], "threshold", rp["threshold"])
